@@ -120,3 +120,16 @@ Print Assumptions C05_scaled_objective_is_the_objective_given_tau.
 (* non-vacuity: a history ending at (t, y) = (450, 3e-5) is fitted in units (3e-5, 450); the generating parameters have a zero objective *)
 Example units_of_a_small_history : fit_unit (3 / 100000) = 3 / 100000 /\ fit_unit 450 = 450.
 Proof. split; apply C05_fit_units_are_the_last_observation; lra. Qed.
+
+(* the optimiser's starting point (before it is moved inside the box) is a function of THIS call's last observation only - no fitted
+   state of an earlier call enters (the generator refuses any read of self.M_ / self.tau_ before the optimiser call) - and in the
+   optimiser's own units it is the constant point (2, 5) for every positive history, whatever the caller's units *)
+Theorem C05_first_guess_in_optimizer_units : forall last_cum last_time, 0 < last_cum -> 0 < last_time ->
+  fit_to_optimizer_free (fit_unit last_cum) (fit_unit last_time) (fit_first_guess_free last_cum last_time) = (2, 5)
+  /\ fit_to_optimizer_given (fit_unit last_cum) (fit_first_guess_given last_cum) = 2.
+Proof.
+  intros c t Hc Ht. rewrite !C05_fit_units_are_the_last_observation by assumption.
+  unfold fit_to_optimizer_free, fit_first_guess_free, fit_to_optimizer_given, fit_first_guess_given. cbn [fst snd].
+  split; [f_equal|]; field; lra.
+Qed.
+Print Assumptions C05_first_guess_in_optimizer_units.
